@@ -30,6 +30,9 @@ B2 = S.cat("b", 2, "first")
 M2 = S.mr("m", 2)
 N2 = S.mr("n", 2)
 CA = S.ca("q", 2, 2, "last")
+# an MR variable with a derived item (m_1 or m_2), payload position 1
+MD = S.mr("m", 2, derived=[{"pos": 1, "alias": "d_12", "name": "d_12", "members": ["m_1", "m_2"],
+                            "anchor": {"position": "after", "alias": "m_1"}}])
 
 BASES = {
     "cat3_x_cat2": (S.schema2("cat3_x_cat2", A3, B2, weighted=True), 2, 3),
@@ -41,6 +44,9 @@ BASES = {
     "datetime_x_cat2": (S.schema2("datetime_x_cat2", S.enum("e", "datetime", 3, missing_first=True), B2, weighted=True), 1, 2),
     "cat3_x_text": (S.schema2("cat3_x_text", A3, S.enum("e", "text", 2), weighted=True), 1, 2),
     "catdate3_x_mr": (S.schema2("catdate3_x_mr", S.cat("d", 3, "first", date=True), M2, weighted=True), 1, 2),
+    "cat2_x_mrd": (S.schema2("cat2_x_mrd", B2, MD, weighted=True), 1, 2),
+    "mrd_x_cat2": (S.schema2("mrd_x_cat2", MD, B2, weighted=True), 1, 2),
+    "mrd_1d": (Schema("mrd_1d", [MD], [("mr", 0)], weighted=True), 2, 3),
     "cat3_1d": (Schema("cat3_1d", [A3], [("cat", 0)], weighted=True), 2, 4),
     "mr_1d": (Schema("mr_1d", [M2], [("mr", 0)], weighted=True), 2, 3),
 }
@@ -48,6 +54,8 @@ SCHEMAS = {k: v[0] for k, v in BASES.items()}
 PROFILES = {k: v[0].profiles(W) for k, v in BASES.items()}
 # (row subtotal, column subtotal) options
 SUBS = [("none", "none"), ("plain", "none"), ("hidden", "none"), ("none", "plain"), ("plain", "plain")]
+# derived-item schemas: payload order / an explicit order on the MR dimension (different collator)
+SUBS_MRD = [("none", "none"), ("explicit", "explicit")]
 
 
 def _nelems(sch, which):
@@ -71,7 +79,7 @@ def _configs(name):
         for hc in ([0] if not two_d else (0, 1, 2 ** nc - 1)):
             for pr in (False, True):
                 for pc in ((False, True) if two_d else (False,)):
-                    for sub in SUBS:
+                    for sub in (SUBS_MRD if "mrd" in name else SUBS):
                         out.append((hr, hc, pr, pc, sub))
     return out
 
@@ -119,7 +127,10 @@ def _transforms(sch, cfg):
             d["elements"] = hid
         if prune:
             d["prune"] = True
-        if sub[which] != "none" and role == "cat":
+        if sub[which] == "explicit" and role == "mr":
+            d["order"] = {"type": "explicit", "element_ids": [it["alias"] for it in reversed(var.items)
+                                                              if not it.get("derived")]}
+        if sub[which] in ("plain", "hidden") and role == "cat":
             ins = subtotal("s12", [1, 2], anchor="top", sid=1)
             if sub[which] == "hidden":
                 ins["hide"] = True
@@ -239,7 +250,7 @@ def check(space, state):
     # OPPOSING dimension and every opposing base vector is empty (by unweighted counts -
     # hiding plays no part), or when the insertion itself is flagged hidden
     for which, (order, opp_prune, opp_emp, name) in enumerate(((ro, pc, ec, "row"), (co, pr, er, "column"))):
-        if sub[which] == "none" or sch.dims[which][0] != "cat":
+        if sub[which] in ("none", "explicit") or sch.dims[which][0] != "cat":
             continue
         shown = any(i < 0 for i in order)
         if sub[which] == "hidden":
